@@ -3,6 +3,7 @@ package main
 func registerAll() {
 	registerWorld(evidWorld{})
 	registerWorld(netWorld{})
+	registerWorld(histWorld{})
 
 	stubsEvid := []string{"FaultySigner (wrapper around the real go-cose signer)", "deterministic crypto.Signer wrapper over pool keys",
 		"sim extension profiles XP1/XP2 (thin structs over the real encoding helpers, fault switch)", "committed key pool"}
@@ -46,5 +47,17 @@ func registerAll() {
 		Assumptions: []string{"'valid claims-set' is decided by the library's own Validate() (a generated set it rejects is skipped and counted under probe emit_claims_not_valid)",
 			"the quantifier 'all valid claims-sets' is sampled, not enumerated", "go-cose's verifier, called directly with empty external data, is the interoperability reference"},
 		MustProbes: []string{"round_trip_ok", "accepted_genuine"},
+	}
+
+	props["C11"] = &propSpec{
+		ID: "C11", Worlds: []string{"W-HIST"}, QuickRuns: 20000, ThoroughRuns: 3000000,
+		Rule: "one run = one object (profile-1, profile-2, extension-on-P1, extension-on-P2 claims-set from NewClaims; a software component; a component container) and a history of 1..40 setter / Add / Replace calls with valid and invalid arguments interleaved and repeated, followed by a rebuild of a fresh object from the last successful call per claim in a permuted order, 1..3 times over. " +
+			"Runs 0..16 of every batch are a deterministic prelude: every byte-string setter x every length 0..80 (exhaustive sub-space). " +
+			"non-trivial = at least one call whose value the profile's validation accepts and one it rejects; distinct = distinct hash of (object kind, sequence of (setter, outcome))",
+		Real: commonReal, Stubs: []string{"sim extension profiles XP1/XP2 (thin structs over the real encoding helpers)"},
+		Assumptions: []string{"the reference for 'validation accepts the value for that claim' is Validate() of the real code on a probe claims-set that is otherwise valid and received the value without the setter (struct fields / container codec); no validation constant is mirrored",
+			"which claims are mandatory is derived the same way (drop the claim from a valid set, ask Validate())",
+			"an empty non-nil component list is the exempt 'clear' operation; only the library's own component type is used"},
+		MustProbes: []string{"setter_ok", "setter_failed", "rebuild_compared", "all_mandatory_set", "sw_clear"},
 	}
 }
